@@ -139,7 +139,7 @@ impl Property for C02 {
     }
     fn runs(&self, tier: Tier) -> usize {
         match tier {
-            Tier::Quick => 40_000,
+            Tier::Quick => 100_000,
             Tier::Thorough => 6_000_000,
         }
     }
